@@ -13,8 +13,9 @@ Decided here (see DESIGN.md section 5, C13):
                  static object that is not std::atomic.
   W-mutex        which mutex a storage really has (compile-time witness).
 """
-from engine import build, flow, witness, callgraph, sym
+from engine import build, flow, witness, callgraph, sym, fwd
 from engine.facts import subterms, top_term, tstr, cls_template, strip_ns
+from rules import common
 
 LEVEL = 'other'
 
@@ -254,30 +255,45 @@ def check_proxy(run, db):
         inst = '%s [%s]' % (f.display, db.config)
         if f.kind == 'ctor':
             n += 1
-            inits = {e.get('field'): e for e in f.events() if e['ev'] == 'init'}
-            m = inits.get('mutex_')
-            from_param = m is not None and any(s.get('k') == 'param' and s['i'] == 1 for s in subterms(m['e']))
-            if from_param and flow.must_pass_through(f, is_call('lock', 'mutex_')):
+            # by value: on every returning path the stored mutex is the address of the second parameter and lock() is called once,
+            # on that mutex (through the member or through a local that names it)
+            rl = {0: 'alloc', 1: 'm'}
+            S = [x for x in fwd.summarize(f, db=db, roles=rl, no_forward=True, inline_pred=common.inline_private) if x.end == 'return']
+            okc = bool(S)
+            for x in S:
+                stored = sym.canon(x.fields.get('this.mutex_') or {}, rl) if 'this.mutex_' in x.fields else \
+                    next((w[1] for w in x.writes if w[0] == 'this.mutex_'), None)
+                locks = [c for c in x.calls if c[1].get('k') == 'call' and c[1].get('short') == 'lock' and 'recv' in c.sub]
+                rc = [sym.canon(c.sub['recv'], rl) for c in locks]
+                if stored != '&($m)' or len(locks) != 1 or rc[0] not in ('this.mutex_', '$m', '&($m)'):
+                    okc = False
+            if okc:
                 run.ok('R-LOCK-PROXY', inst, f.loc, 'constructor locks the mutex it stores on every path')
             else:
                 run.violation('R-LOCK-PROXY', inst, f.loc, 'constructor does not lock the mutex it was given on every path',
                               site={'function': 'detail::locked_allocator::<ctor>', 'role': 'lock on construction'})
         elif f.kind == 'dtor':
             n += 1
-            # unlock on every path on which mutex_ is non-null
-            okd = True
-            why = ''
-            unl = [e for e in f.events() if is_call('unlock', 'mutex_')(e)]
-            if not unl:
+            # unlock exactly once on every path on which mutex_ is non-null, never on a path on which it is null; every path decides
+            okd, why = True, ''
+            S = [x for x in fwd.summarize(f, db=db, roles={}, no_forward=True, inline_pred=common.inline_private) if x.end == 'return']
+            if not S:
+                okd, why = False, 'destructor has no returning path'
+            seen_unlock = False
+            for x in S:
+                unl = [c for c in x.calls if c[1].get('k') == 'call' and c[1].get('short') == 'unlock' and 'recv' in c.sub
+                       and sym.canon(c.sub['recv']) == 'this.mutex_']
+                seen_unlock = seen_unlock or bool(unl)
+                nn = common.nonnull_on_path(x.conds, 'this.mutex_')
+                if nn is True and len(unl) != 1:
+                    okd, why = False, 'a path through the destructor skips unlock() although mutex_ may be non-null'
+                elif nn is False and unl:
+                    okd, why = False, 'unlock() through a null mutex_'
+                elif nn is None:
+                    okd, why = False, ('a path through the destructor skips unlock() although mutex_ may be non-null' if not unl
+                                       else 'unlock() without testing mutex_: a moved-from proxy dereferences null')
+            if S and not seen_unlock:
                 okd, why = False, 'destructor never unlocks'
-            else:
-                # every path entry->exit either passes unlock or passes a false-branch of a test on mutex_
-                def blocked(e):
-                    return is_call('unlock', 'mutex_')(e)
-                # explore paths avoiding unlock; each must contain a branch on `mutex_` taken false
-                okd = _paths_without_need_null_test(f, blocked, 'mutex_')
-                if not okd:
-                    why = 'a path through the destructor skips unlock() although mutex_ may be non-null'
             if okd:
                 run.ok('R-LOCK-PROXY', inst, f.loc, 'destructor unlocks unless moved-from')
             else:
